@@ -47,6 +47,20 @@ def decode(ob, call):
 
 
 def confirm(ob, call, rep):
+    def _race(call):
+        try:
+            return bool(eval(call, {'pool_enter': lambda has, rc, other, race=False: race}))
+        except Exception:  # noqa
+            return False
+    if ob.func == 'pool_enter' and _race(call):
+        # the race between two requests for one key: re-enacted with real threads, the real descriptor pool, real
+        # lockf and a probing process
+        p = subprocess.run([PY, os.path.join(VERIF, 'lib', 'lock_replay.py'), json.dumps(dict(op='pool_race'))],
+                           capture_output=True, text=True, timeout=120)
+        for line in p.stdout.splitlines():
+            if line.startswith('REPLAY '):
+                return json.loads(line[7:])
+        return dict(ok=None, note='real replay gave no verdict', stderr=p.stderr[-300:])
     if ob.func in ('pool_enter', 'pool_exit', 'path_two'):
         # pure-Python bookkeeping over dicts: the concrete harness replay already ran the real code; the only stubs
         # are the mutex and os.open/close recorders
@@ -138,6 +152,7 @@ def main():
         ('C15_proc.py', 'p_enter', 'p_enter(2, True, True, False, False, 0, 1, 0, 0, 0, 0, 2, 0)'),
         ('C15_proc.py', 'p_exit', 'p_exit(1, False, False, 1, 1, 0, 0, 0, 0, 2, 0)'),
         ('C15_proc.py', 'p_exit', 'p_exit(1, True, False, 1, 0, 0, 0, 0, 0, 1, 0)'),
+        ('C15_proc.py', 'pool_enter', 'pool_enter(False, 1, False, True)'),   # two requests for one key race
     ]
     nconform = 0
     for f, fn, call in conf_calls:
